@@ -348,14 +348,34 @@ h_gr_comps(void)
     H4V_CANARY("gr_comps end");
 }
 
-/* match(): two object lists (sorted by name, as hdiff_list delivers them) of at most 2 Vdatas each with 1-character
+/* C library qsort, exact for the <= 2 records of the match() harness */
+void
+qsort(void *base, size_t nmemb, size_t size, int (*compar)(const void *, const void *))
+{
+    H4V_CHECK(nmemb <= 2 && size == sizeof(dobj_info_t), "qsort model: at most 2 object records");
+    if (nmemb == 2 && size == sizeof(dobj_info_t)) {
+        dobj_info_t *a = (dobj_info_t *)base;
+        if (compar(&a[0], &a[1]) > 0) {
+            dobj_info_t t = a[0];
+            a[0]          = a[1];
+            a[1]          = t;
+        }
+    }
+}
+
+/* match(): two object lists (in ANY order, as hdiff_list delivers them) of at most 2 Vdatas each with 1-character
    names; an object whose name occurs in only one list is an added/removed object: the result must be > 0 */
-static dtable_t    g_l1, g_l2;
-static dobj_info_t g_objs1[2], g_objs2[2];
 void
 h_match_only(void)
 {
+    dtable_t    g_l1, g_l2;
+    dobj_info_t g_objs1[2], g_objs2[2];
     dr_opts();
+    /* every byte initialised: cbmc 6.11 is not field-sensitive for arrays of more than 64 elements (obj_name has 256), and a
+       partly initialised one read through match()'s pointers gave bytes the harness had never stored (spurious failure of the
+       'every common object is compared' check, DESIGN 10.6; reproduced on a 25-line program, gone with full initialisation) */
+    memset(g_objs1, 0, sizeof g_objs1);
+    memset(g_objs2, 0, sizeof g_objs2);
     H4V_ND(uint32, n1);
     H4V_ND(uint32, n2);
     H4V_ASSUME(n1 <= 2 && n2 <= 2);
@@ -372,8 +392,8 @@ h_match_only(void)
         g_objs2[k].tag         = DFTAG_VH;
         g_objs2[k].ref         = 2 + k;
     }
-    /* sorted, no duplicates */
-    H4V_ASSUME(g_objs1[0].obj_name[0] < g_objs1[1].obj_name[0] && g_objs2[0].obj_name[0] < g_objs2[1].obj_name[0]);
+    /* no duplicates inside a file; ANY order (the lists come in file order, hdiff_list does not sort them) */
+    H4V_ASSUME(g_objs1[0].obj_name[0] != g_objs1[1].obj_name[0] && g_objs2[0].obj_name[0] != g_objs2[1].obj_name[0]);
     g_l1.size = g_l2.size = 2;
     g_l1.nobjs            = n1;
     g_l2.nobjs            = n2;
@@ -401,5 +421,6 @@ h_match_only(void)
     H4V_CHECK(only > 0 || r == 0, "C19 equal object sets with equal contents: no difference");
     H4V_COVER(only == 1 && common == 1, "match one common, one only in one file");
     H4V_COVER(only == 0 && common == 2, "match two common objects");
+    H4V_COVER(only == 0 && common == 2 && g_objs1[0].obj_name[0] != g_objs2[0].obj_name[0], "match two common objects held in different order");
     H4V_CANARY("match_only end");
 }
